@@ -237,6 +237,8 @@ def run(ctx, model=None):
         check_case(ctx, gen.parallel_dead_game(rng), rng, model)
     for k in range(25 if ctx.quick() else 300):
         check_case(ctx, gen.decimal_sum_game(rng), rng, model)
+        check_case(ctx, gen.zero_prob_live_game(rng), rng, model)
+        check_case(ctx, gen.zero_prob_dead_game(rng), rng, model)
     import analysis as _an0
     _an0.optimized_interpreter(ctx, [gen.decimal_sum_game(rng) for _ in range(6)] + [gen.stopping_game(rng) for _ in range(6)], "rewards-renumbered")
     for k in range(25 if ctx.quick() else 300):
